@@ -961,11 +961,15 @@ Proof.
   intros ->. discriminate G1.
 Qed.
 
+(* the pre-repair `.unwrap()` of a type query: None panics (the repaired code uses `unwrap_or(!)`) *)
+Definition lift_opt_unwrap (o : option ty) : oty := match o with Some t => Ok t | None => Panic end.
+
 Theorem index_guard_never_refuted : can_be_indexed TNever = true /\ index_result TNever = None.
 Proof. split; reflexivity. Qed.
 
-Theorem at_rt_never_panics : bin_rt At TNever TInt = Panic.
-Proof. reflexivity. Qed.
+Theorem at_rt_never_panics :
+  lift_opt_unwrap (index_result TNever) = Panic /\ bin_rt At TNever TInt = Ok TNever.
+Proof. split; reflexivity. Qed.
 
 (* -- element_type behind `matches T [any]` (`$` on arrays, `+`) -- *)
 Theorem element_guard T :
@@ -976,8 +980,9 @@ Theorem element_guard_never_refuted :
   matches TNever (TArr TAny) = true /\ element_type TNever = None.
 Proof. split; reflexivity. Qed.
 
-Theorem iter_rt_never_panics : un_rt UIter TNever = Panic.
-Proof. reflexivity. Qed.
+Theorem iter_rt_never_panics :
+  lift_opt_unwrap (element_type TNever) = Panic /\ un_rt UIter TNever = Ok (TFun [] (TTup [TBool; TNever])).
+Proof. split; reflexivity. Qed.
 
 (* -- *cell -- *)
 Lemma is_mut_no_elem T : is_mut T = true -> element_type T = None.
@@ -1007,9 +1012,9 @@ Proof. exists (TMulti [TMut TInt; TMut TFloat]). repeat split; vm_compute; refle
    (repaired since: Rt.un_rt / Check.assign_ok now ask [mut_element_type_spec]) *)
 Theorem deref_union_rt_panics :
   is_mut (TMulti [TMut TInt; TMut TFloat]) = true /\
-  lift_opt (mut_element_type (TMulti [TMut TInt; TMut TFloat])) = Panic /\
+  lift_opt_unwrap (mut_element_type (TMulti [TMut TInt; TMut TFloat])) = Panic /\
   un_rt UIndirection (TMulti [TMut TInt; TMut TFloat]) = Ok (TMulti [TInt; TFloat]) /\
-  can_be_used Assign (TMulti [TMut TInt; TMut TFloat]) TInt = Ok true.
+  can_be_used Assign (TMulti [TMut TInt; TMut TFloat]) TInt = Ok false.
 Proof. repeat split; vm_compute; reflexivity. Qed.
 
 Theorem mut_guard_simple T :
@@ -1244,7 +1249,8 @@ Qed.
 Theorem iter_guard_never_refuted :
   matches TNever ITERATOR_TYPE = true /\ matches TNever ACC_SUM = true /\
   iter_element TNever = None /\
-  un_rt UCollect TNever = Panic /\ un_rt USum TNever = Panic.
+  lift_opt_unwrap (iter_element TNever) = Panic /\
+  un_rt UCollect TNever = Ok (TArr TNever) /\ un_rt USum TNever = Ok TNever.
 Proof. repeat split. Qed.
 
 (* `!` inside the type is enough: a function that never returns is an iterator
@@ -1253,7 +1259,8 @@ Theorem iter_guard_fun_never_refuted :
   wf_ty (TFun [] TNever) = true /\ ty_eqb (TFun [] TNever) TNever = false /\
   matches (TFun [] TNever) ITERATOR_TYPE = true /\ matches (TFun [] TNever) ACC_SUM = true /\
   iter_element (TFun [] TNever) = None /\
-  un_rt UCollect (TFun [] TNever) = Panic /\ un_rt USum (TFun [] TNever) = Panic.
+  lift_opt_unwrap (iter_element (TFun [] TNever)) = Panic /\
+  un_rt UCollect (TFun [] TNever) = Ok (TArr TNever) /\ un_rt USum (TFun [] TNever) = Ok TNever.
 Proof. repeat split; vm_compute; reflexivity. Qed.
 
 Theorem iter_guard_tuple_never_refuted :
@@ -1398,18 +1405,40 @@ Variable powf : fbits -> fbits -> fbits.
    the checker: applying the base operator to ANY content of type t and the
    value of e neither panics nor leaves t — the hypothesis under which
    CellLemmas.store_typed_run keeps every cell inside its declared type *)
+Lemma assign_ok_nonmulti L T cbu rtf :
+  is_multi L = false -> assign_ok L T cbu rtf = assign_ok_single L T cbu rtf.
+Proof. destruct L; try reflexivity. discriminate. Qed.
+
+(* a union target is checked member by member (cells are invariant) *)
+Lemma assign_ok_multi_member ms T cbu rtf m :
+  assign_ok (TMulti ms) T cbu rtf = Ok true -> In m ms -> assign_ok_single m T cbu rtf = Ok true.
+Proof.
+  unfold assign_ok.
+  assert (G : forall l acc, fold_left (fun (acc : outcome bool) (m : ty) =>
+                 obind acc (fun a : bool => if a then assign_ok_single m T cbu rtf else Ok false)) l acc = Ok true ->
+               acc = Ok true /\ forall x, In x l -> assign_ok_single x T cbu rtf = Ok true).
+  { induction l as [|y l IH]; intros acc H; cbn [fold_left] in H.
+    { split; [exact H|]. intros x Hx. destruct Hx. }
+    destruct (IH _ H) as [Ha Hl].
+    destruct acc as [a0| | |]; cbn [obind] in Ha; try discriminate Ha.
+    destruct a0; [|discriminate Ha].
+    split; [reflexivity|]. intros x Hx. destruct Hx as [E|Hx]; [subst x; exact Ha|apply Hl; exact Hx]. }
+  intros H Hm. destruct (G ms (Ok true) H) as [_ Hl]. apply Hl. exact Hm.
+Qed.
+
 Theorem compound_assign_sound aop bop L t T2 v cur :
   assign_base aop = Some bop ->
   wf_ty t = true -> wf_ty T2 = true ->
+  is_multi L = false ->
   mut_element_type_spec L = Some t ->
   can_be_used aop L T2 = Ok true ->
   has_type v T2 = true -> has_type cur t = true ->
   op_ok powf bop cur v t.
 Proof.
-  intros Hb Wt W2 HL C Hv Hc.
+  intros Hb Wt W2 NM HL C Hv Hc.
   assert (K : forall cbu rtf, assign_ok L T2 cbu rtf = Ok true ->
               cbu t T2 = true /\ exists R, rtf t T2 = Ok R /\ matches R t = true).
-  { intros cbu rtf H. unfold assign_ok in H. rewrite HL in H.
+  { intros cbu rtf H. rewrite (assign_ok_nonmulti _ _ _ _ NM) in H. unfold assign_ok_single in H. rewrite HL in H.
     destruct (rtf t T2) as [R| | |]; try discriminate H. cbn [obind] in H.
     injection H as H. apply andb_true_iff in H. destruct H as [H1 H2]. eauto. }
   destruct aop; try discriminate Hb; injection Hb as <-; cbn [can_be_used] in C;
@@ -1444,10 +1473,12 @@ Qed.
 
 (* plain assignment: the checker demands the right-hand type below the content type *)
 Theorem assign_sound L t T2 v :
+  is_multi L = false ->
   mut_element_type_spec L = Some t -> can_be_used Assign L T2 = Ok true ->
   has_type v T2 = true -> has_type v t = true.
 Proof.
-  intros HL C Hv. cbn [can_be_used] in C. unfold assign_ok in C. rewrite HL in C.
+  intros NM HL C Hv. cbn [can_be_used] in C. rewrite (assign_ok_nonmulti _ _ _ _ NM) in C.
+  unfold assign_ok_single in C. rewrite HL in C.
   cbn [obind andb] in C. injection C as C. apply (has_type_sound _ _ _ Hv C).
 Qed.
 
